@@ -23,7 +23,7 @@ ASSUMPTIONS = [
     "rows where r*2^log2 is within 1e-6 of k+1/2 are skipped for the nearest-integer clause (float tie)",
     "PAR rows are generated >= 100 kb inside the published PAR intervals; non-PAR X/Y rows >= 5 Mb away from them",
 ]
-BUDGET_S = {"quick": 200, "thorough": 1200}
+BUDGET_S = {"quick": 600, "thorough": 2400}
 
 PURITIES_Q = [1.0, 0.999, 0.9, 0.7, 0.5, 0.3, 0.1, 0.05]
 
